@@ -134,6 +134,41 @@ theorem cover_ok (s : DSymData) (hs : ValidTables s) (hsz : 1 ≤ s.size) (hdim 
     rw [hcd]
     exact hdeg i d (by rw [hdim']; exact hi) h1 (by rw [hsize]; exact h2)
 
+/-- `PartialDSym::is_complete` of a cover: every orbit length of the cover divides the (positive)
+    degree of the base -/
+theorem cover_isComplete (s : DSymData) (hs : ValidTables s) (hsz : 1 ≤ s.size) (hdim : 1 ≤ s.dim)
+    {n : Nat} (hn : 1 ≤ n) {σ : Nat → Nat → Nat → Nat} (hσ : SheetCompat s.dset n σ)
+    {c : DSymData} (hc : cover s n σ = .ok c)
+    (hdiv : ∀ i d r, i < s.dim → 1 ≤ d → d ≤ n * s.size → IsLeastPeriod c.dset i (i + 1) d r →
+      1 ≤ s.mVal i (cproj s.size d) ∧ r ∣ s.mVal i (cproj s.size d)) :
+    c.isCompletePartial = true := by
+  obtain ⟨c', hc', hsize, hdim', hct, _, hdeg⟩ := cover_ok s hs hsz hdim hn hσ
+  rw [hc] at hc'
+  cases hc'
+  unfold DSymData.isCompletePartial
+  rw [hct.set.isCompletePartial, Bool.true_and, Array.all_eq_true]
+  intro k hk
+  have hk' : k < (collectOrbits c.dset).rs.size := by
+    rw [← hct.rs_eq, ← hct.vs_size]; exact hk
+  obtain ⟨i, x, hi, hx1, hx2, hkx⟩ := collectOrbits_surj hct.set hk'
+  have hi' : i < s.dim := by rw [← hdim']; exact hi
+  have hx2' : x ≤ n * s.size := by rw [← hsize]; exact hx2
+  obtain ⟨r, hr, hrp, hvp, _⟩ := hdeg i x hi' hx1 hx2'
+  obtain ⟨hm1, hdvd⟩ := hdiv i x r hi' hx1 hx2' hr
+  have hv := hct.vPartial_adj (show i < c.dim from hi) hx1 (show x ≤ c.size from hx2)
+  rw [hvp] at hv
+  have hkx' : c.ixAt i x = k := by unfold DSymData.ixAt; rw [hct.index_eq]; exact hkx
+  rw [hkx'] at hv
+  have hval : c.orbitVs.getD k 0 = s.mVal i (cproj s.size x) / r := by
+    have := Option.some.inj (Outcome.ok.inj hv)
+    exact this.symm
+  have hpos : 0 < s.mVal i (cproj s.size x) / r :=
+    Nat.div_pos (Nat.le_of_dvd (by omega) hdvd) (by have := hr.1; omega)
+  have hget : c.orbitVs[k] = c.orbitVs.getD k 0 := by
+    rw [Array.getD_eq_getD_getElem?, Array.getElem?_eq_getElem hk]; rfl
+  rw [hget, hval]
+  exact decide_eq_true hpos
+
 /-- the model has no error value here: `cover` returns or panics -/
 theorem cover_ne_err_of_buildSet_panic (s : DSymData) (n : Nat) (σ : Nat → Nat → Nat → Nat)
     (h : buildSet (n * s.size) s.dim (coverOp s σ) = .panic) : cover s n σ = .panic := by
